@@ -52,6 +52,7 @@ m("C02", "data/roll.py", "i.store.add_key(state_w, (i.key[0]*density+offset, i.k
 m("C02", "data/roll.py", "                        index = i.key[0] * density + offset\n                        i.store.set_state(state_w, (index, i.key), n)", "                        index = i.key[0] + offset\n                        i.store.set_state(state_w, (index, i.key), n)", "fire", ["ST-3", "ST-6"])
 m("C02", "operators/scan.py", "                    i.store.add_key(state, i.key)\n                    observer.on_next(i)", "                    if seed is not None:\n                        i.store.add_key(state, i.key)\n                    observer.on_next(i)", "fire", ["ST-2"])
 m("C02", "operators/tee_map.py", "                        # a lifetime ended by an error leaves values behind\n                        base_index = x.key[0] * n\n                        for index in range(n):\n                            queue[base_index+index] = None\n                            has_next[base_index+index] = False\n                    observer.on_next(x)", "                    observer.on_next(x)", "fire", ["ST-5"], "re-introduces the repaired defect 4dc75fc: the join slots of a key are cleared at completion only, a lifetime ended by a mux error leaks into the next")
+m("C02", "operators/tee_map.py", "                        # a lifetime ended by an error leaves values behind\n                        base_index = x.key[0] * n\n                        for index in range(n):\n                            queue[base_index+index] = None\n                            has_next[base_index+index] = False\n", "                            base_index = x.key[0] * n\n                            for index in range(n):\n                                queue[base_index+index] = None\n                                has_next[base_index+index] = False\n", "fire", ["ST-5"], "round r: the slots cleared only when the tables grow (a reset under a condition is no reset)")
 m("C02", "operators/tee_map.py", "                        # a lifetime ended by an error leaves values behind\n                        base_index = x.key[0] * n\n                        for index in range(n):\n                            queue[base_index+index] = None\n                            has_next[base_index+index] = False\n", "                        base_index = x.key[0] * n\n                        queue[base_index:base_index+n] = [None] * n\n                        has_next[base_index:base_index+n] = array('B', [False] * n)\n", "silent", [], "round r: the key's slots cleared by two slice assignments")
 m("C02", "operators/tee_map.py", "                        # a lifetime ended by an error leaves values behind\n                        base_index = x.key[0] * n\n                        for index in range(n):\n                            queue[base_index+index] = None\n                            has_next[base_index+index] = False\n", "                        base_index = x.key[0] * n\n                        queue[base_index:base_index+n-1] = [None] * (n-1)\n                        has_next[base_index:base_index+n] = array('B', [False] * n)\n", "fire", ["ST-5"], "round r: the slice leaves the last branch's slot out")
 m("C02", "operators/tee_map.py", "                        # a lifetime ended by an error leaves values behind\n                        base_index = x.key[0] * n\n                        for index in range(n):\n                            queue[base_index+index] = None\n                            has_next[base_index+index] = False\n                    observer.on_next(x)\n                return\n\n            elif isinstance(x, rs.OnCompletedMux):", "                    observer.on_next(x)\n                return\n\n            elif isinstance(x, rs.OnErrorMux):\n                if zip is True or combine is True:\n                    base_index = x.key[0] * n\n                    for index in range(n):\n                        queue[base_index+index] = None\n                        has_next[base_index+index] = False\n                observer.on_next(x)\n                return\n\n            elif isinstance(x, rs.OnCompletedMux):", "silent", [], "round r: the slots cleared when the key completes and when it fails, not when it is created")
